@@ -33,6 +33,11 @@ func jsonCfgs() []jsonCfg {
 		{"w80-4sp-nosort", &snaps.JSONConfig{Width: 80, Indent: "    ", SortKeys: false}},
 		{"w200-noindent-nosort", &snaps.JSONConfig{Width: 200, Indent: "", SortKeys: false}},
 		{"w20-1sp-nosort", &snaps.JSONConfig{Width: 20, Indent: " ", SortKeys: false}},
+		// pairs that share width and indent with another entry (or with the defaults) and differ
+		// only in SortKeys: all cases of a worker run in one process, so per-layout state would show
+		{"w0-1sp-nosort", &snaps.JSONConfig{Width: 0, Indent: " ", SortKeys: false}},
+		{"w80-4sp-sort", &snaps.JSONConfig{Width: 80, Indent: "    ", SortKeys: true}},
+		{"w20-tab-nosort", &snaps.JSONConfig{Width: 20, Indent: "\t", SortKeys: false}},
 	}
 }
 
